@@ -10,6 +10,7 @@ CONSTANTS NS = 1
   Sweeps <- BB
   Caches <- BT
   DropInPort = TRUE
+  DeleteOnMove = TRUE
   IdleTO = 10
   HardTO = 30
   DropTO = 10
@@ -20,6 +21,7 @@ CHECK_DEADLOCK FALSE
 INVARIANT Export
 INVARIANT TypeOK
 INVARIANT NoLeak
+INVARIANT CtlTrue
 INVARIANT UniqueHit
 INVARIANT CacheSound
 PROPERTY Conforms
